@@ -14,6 +14,7 @@ func c07(tier string) int {
 		"sauth:S1:0:1:G1:9:stale",
 		"restart",
 		"fail:gcaPubKey.dat:open", "fail:gcaPubKey.dat:write", // the next operation cannot create / write the key file
+		"tornkey:11", // an 11-byte key file left behind by an interrupted first registration (server restarted on it)
 	}
 	depth := 8 // the reachable state space closes well before this depth
 	if tier == "thorough" {
